@@ -155,4 +155,29 @@ HasSimple(v) ==  \* well-formed, but a decoder may refuse it: unassigned simple 
     [] v[1] = "simple" -> TRUE
     [] v[1] = "nint" -> Len(v[2]) = 8 /\ v[2][1] >= 128
     [] OTHER -> FALSE
+
+-----------------------------------------------------------------------------
+(* String references (tags 256 "stringref-namespace" and 25 "stringref",   *)
+(* cbor.schmorp.de/stringref), which jsoncons emits with pack_strings:     *)
+(* inside a namespace every byte/text string whose length is at least the  *)
+(* minimum for the NEXT index (3 for index < 24, 4 < 256, 5 < 65536, 7     *)
+(* beyond) is appended to the table in decoding order; tag 25 on an        *)
+(* unsigned integer denotes the table entry with that index.               *)
+MinRefLen(idx) == IF idx < 24 THEN 3 ELSE IF idx < 256 THEN 4 ELSE IF idx < 65536 THEN 5 ELSE 7
+RECURSIVE Res(_, _), ResSeq(_, _, _, _), ResPairs(_, _, _, _)
+\* Res(v, tbl) = <<v', tbl'>>
+Res(v, tbl) ==
+  CASE v[1] \in {"tstr", "bstr"} -> <<v, IF Len(v[2]) >= MinRefLen(Len(tbl)) THEN Append(tbl, v) ELSE tbl>>
+    [] v[1] = "tag" /\ Num(v[2]) = 25 /\ v[3][1] = "uint" ->
+         LET i == Num(v[3][2]) IN IF i < Len(tbl) THEN <<tbl[i + 1], tbl>> ELSE << <<"badref">>, tbl >>
+    [] v[1] = "tag" /\ Num(v[2]) = 256 -> << Res(v[3], <<>>)[1], tbl >>      \* a nested namespace has its own table
+    [] v[1] = "tag" -> LET r == Res(v[3], tbl) IN << <<"tag", v[2], r[1]>>, r[2] >>
+    [] v[1] = "arr" -> LET r == ResSeq(v[2], 1, <<>>, tbl) IN << <<"arr", r[1]>>, r[2] >>
+    [] v[1] = "map" -> LET r == ResPairs(v[2], 1, <<>>, tbl) IN << <<"map", r[1]>>, r[2] >>
+    [] OTHER -> <<v, tbl>>
+ResSeq(xs, k, acc, tbl) == IF k > Len(xs) THEN <<acc, tbl>> ELSE LET r == Res(xs[k], tbl) IN ResSeq(xs, k + 1, Append(acc, r[1]), r[2])
+ResPairs(ps, k, acc, tbl) == IF k > Len(ps) THEN <<acc, tbl>>
+                             ELSE LET rk == Res(ps[k][1], tbl)  rv == Res(ps[k][2], rk[2]) IN ResPairs(ps, k + 1, Append(acc, <<rk[1], rv[1]>>), rv[2])
+\* outside any namespace nothing is registered or resolved
+ResolveStringRefs(v) == IF v[1] = "tag" /\ Num(v[2]) = 256 THEN Res(v[3], <<>>)[1] ELSE v
 =============================================================================
